@@ -947,7 +947,13 @@ def data_harness(fx, e, m, case, hname, props, tier):
         lines.append("        match &*r { Err(Echo::Std) => {}, _ => assert!(false) }")
         lines.append("        assert!(s.0.get() == 77);")
     lines.append("        kani::cover!(true, \"end of harness reachable\");")
-    body = "\n    #[kani::proof]\n    #[kani::unwind(6)]\n    %s\n    fn %s() {\n%s\n    }\n" % (STUBS, hname, "\n".join(lines))
+    stubs = STUBS
+    if case == "present" and mode in ("typed", "opt"):
+        # without this stub CBMC does not finish (900 s): it symbolically executes the JSON parser of the branch that
+        # the non-envelope byte can never reach
+        stubs += "\n    #[kani::stub(cosmwasm_std::from_json, from_json_unreachable_stub)]"
+        clause += " (cosmwasm_std::from_json stubbed to fail: unreachable for this input, listed as an assumption)"
+    body = "\n    #[kani::proof]\n    #[kani::unwind(6)]\n    %s\n    fn %s() {\n%s\n    }\n" % (stubs, hname, "\n".join(lines))
     reg(hname, fx["feature"], props, tier, clause, fx["mod"])
     return body
 
@@ -1045,8 +1051,9 @@ def emit_reply_fixture(fx):
             m = e["succ"]
             for case in ("absent", "present"):
                 if case == "present" and m.data in ("typed", "opt"):
-                    # tried: CBMC does not finish (900 s) — the decoded-execute path reaches cosmwasm_std::from_json
-                    # during symbolic execution even for a concrete non-envelope byte; these two cells are uncovered
+                    # tried three ways and dropped: plain (900 s timeout), with cosmwasm_std::from_json stubbed to fail
+                    # (still 900 s: the cost is not the JSON parser alone) and with -Z restrict-vtable (900 s).  These two
+                    # cells (decoded-execute modes x non-envelope byte) are uncovered.
                     continue
                 out.append(data_harness(fx, e, m, case, "c09_%s_%s_%s" % (mod, e["name"], case), ["C09"], tier))
     # T: ids pairwise distinct, and equal to the index in the de-duplicated table (declaration order)
